@@ -142,6 +142,52 @@ func (s *Session) collect(prop string) *propRun {
 			pr.canaries = append(pr.canaries, vc.canaries...)
 		}
 	}
+	// Modular soundness: a postcondition that one of the functions above relies on at a call site must itself be proved in
+	// THIS check, whatever property its clause is tagged for (four seeded changes were missed because the clause that caught
+	// them belonged to a callee that was tagged for another property only). Every own, non-trusted contract that was used and
+	// is not part of the property yet is generated too and its postconditions / atom definitions / frames join the check as
+	// supporting obligations; transitively.
+	included := map[string]bool{}
+	for _, n := range pr.functions {
+		included[n] = true
+	}
+	for changed := true; changed; {
+		changed = false
+		for _, n := range sortedKeys(pr.usedCt) {
+			ct := s.g.spec.Contracts[n]
+			if ct == nil || ct.External || ct.Trusted || included[n] || s.fns[n] == nil {
+				continue
+			}
+			included[n] = true
+			changed = true
+			vc, err := s.generate(ct)
+			if err != nil {
+				pr.errors = append(pr.errors, err.Error())
+				continue
+			}
+			pr.functions = append(pr.functions, ct.Name)
+			for k := range vc.assumedExt {
+				pr.assumed[k] = true
+			}
+			for k := range vc.usedCt {
+				pr.usedCt[k] = true
+			}
+			pr.explicit = append(pr.explicit, vc.explicitAssumes...)
+			if len(vc.unsupported) > 0 {
+				pr.obs = append(pr.obs, &Obligation{Name: ct.Name + "/subset", Fn: ct.Name, Kind: "subset", Props: []string{prop}, Result: "error", Backend: "vcgen",
+					Raw: "function is outside the supported subset or its contract does not bind: " + strings.Join(vc.unsupported, "; "), Pos: ct.Source})
+				continue
+			}
+			for _, ob := range vc.obs {
+				k := strings.TrimPrefix(ob.Kind, "supporting:")
+				if k == "post" || k == "frame" || k == "inv-entry" || k == "inv-preserve" || k == "each-iteration" || k == "at_call" || k == "assert" || k == "pre" || k == "exit" {
+					cp := *ob
+					cp.Kind = "supporting:" + k
+					pr.obs = append(pr.obs, &cp)
+				}
+			}
+		}
+	}
 	pr.obs = append(pr.obs, s.lemmaObligations(prop)...)
 	for _, n := range sortedKeys(pr.usedCt) {
 		if ct := s.g.spec.Contracts[n]; ct != nil && !ct.External && ct.Trusted {
